@@ -18,6 +18,9 @@
 #include <istream>
 #include <algorithm>
 #include <unistd.h>
+#include <dirent.h>
+#include <signal.h>
+#include <errno.h>
 #include <sys/stat.h>
 #include <boost/gil.hpp>
 #include "common/vh.hpp"   // (this header sits next to the harness sources: listed in tu(deps=...))
@@ -89,7 +92,27 @@ struct scratch_file {           // removes the file when it goes out of scope
     ~scratch_file() { unlink(path.c_str()); live_scratch()[0] = 0; }
 };
 inline void death_cleanup() { if (live_scratch()[0]) unlink(live_scratch()); vh::on_death(); }
+// scratch files of harness processes that no longer exist (killed by a watchdog, died inside a library
+// that the death callback could not follow) are removed by the next process that starts
+inline void sweep_stale_scratch() {
+    std::string dir = scratch_dir();
+    DIR* d = opendir(dir.c_str());
+    if (!d) return;
+    while (struct dirent* e = readdir(d)) {
+        const char* n = e->d_name;
+        const char* pre[] = { "c12.", "c12r.", "c13.", "c13s.", "c13f." };
+        for (const char* p : pre) {
+            size_t l = strlen(p);
+            if (strncmp(n, p, l) != 0) continue;
+            long pid = atol(n + l);
+            if (pid > 1 && kill((pid_t)pid, 0) != 0 && errno == ESRCH) unlink((dir + "/" + n).c_str());
+            break;
+        }
+    }
+    closedir(d);
+}
 inline void install_cleanup() {
+    sweep_stale_scratch();
 #ifdef VH_HAVE_SANITIZER
     vh::__sanitizer_set_death_callback(&death_cleanup);
 #endif
